@@ -144,13 +144,14 @@ def grouping(sel: List[int]) -> bool:
     try:
         cur = Cur()
         n = 1 + rd(sel, cur, 3 if THOROUGH else 2)
+        wide = THOROUGH and n <= 2  # thorough: tuples of <= 3 over 4 leaf types for <= 2 return types; 3 return types with the quick item pool
         items = []
         for _ in range(n):
-            arity = rd(sel, cur, 4 if THOROUGH else 3)  # 0: a plain NamedType; k: a tuple of k NamedTypes
+            arity = rd(sel, cur, 4 if wide else 3)  # 0: a plain NamedType; k: a tuple of k NamedTypes
             if arity == 0:
                 items.append(LEAF[rd(sel, cur, 4)])
             else:
-                items.append(TupleType([LEAF[rd(sel, cur, 4 if THOROUGH else 2)] for _ in range(arity)]))
+                items.append(TupleType([LEAF[rd(sel, cur, 4 if wide else 2)] for _ in range(arity)]))
         ndoc = rd(sel, cur, 3)
     except OutOfRange:
         return True
@@ -353,13 +354,14 @@ def _dec_annotated(s):
 def _dec_grouping(s):
     cur = Cur()
     n = 1 + rd(s, cur, 3 if THOROUGH else 2)
+    wide = THOROUGH and n <= 2
     for _ in range(n):
-        arity = rd(s, cur, 4 if THOROUGH else 3)
+        arity = rd(s, cur, 4 if wide else 3)
         if arity == 0:
             rd(s, cur, 4)
         else:
             for _ in range(arity):
-                rd(s, cur, 4 if THOROUGH else 2)
+                rd(s, cur, 4 if wide else 2)
     rd(s, cur, 3)
 
 
